@@ -19,7 +19,7 @@ def main():
     checks = None
     if "--checks" in sys.argv:
         checks = sys.argv[sys.argv.index("--checks") + 1].split(",")
-    wt = "/tmp/seed/" + pid
+    wt = os.environ.get("SEED_WT", "/tmp/seed/" + pid)
     out = os.path.join(V, "seeded", name)
     os.makedirs(out, exist_ok=True)
     shutil.copy(patch, os.path.join(out, "patch.diff"))
